@@ -240,6 +240,11 @@ def input_faults(ctx, shard, i, rng):
                     row = {"bin1_id": int(src["bin1_id"]), "bin2_id": int(src["bin2_id"]), "count": 7}
                 bad_chunks[ci] = pd.concat([ch.iloc[:at], pd.DataFrame([row]), ch.iloc[at:]], ignore_index=True).astype(np.int64)
                 c.feature(f"fault:invalid-record:{kind}")
+                if kind != "bin=-1" and rng.random() < 0.4:
+                    # the caller's id columns may be unsigned or narrower (all ids here are >= 0 and small)
+                    idt = [np.uint32, np.uint64, np.uint16, np.int32][int(rng.integers(4))]
+                    bad_chunks = [b_.astype({"bin1_id": idt, "bin2_id": idt}) for b_ in bad_chunks]
+                    c.feature(f"input-id-dtype:{np.dtype(idt).name}")
 
                 def it():
                     for ch_ in bad_chunks:
@@ -380,6 +385,8 @@ def line_faults(ctx, shard, i, rng):
             delivered = False
             with faults.LineFailpoints(codes) as fp:
                 fp.target = k
+                fp.exc_class = faults.FAULT_CLASSES[k % 3]     # plain, OSError-like and RuntimeError-like failures
+                c.feature(f"fault-class:{fp.exc_class.__name__}")
                 try:
                     runk()
                 except faults.InjectedFault:
